@@ -532,6 +532,15 @@ package resolver
 //@   assert at store resolver.TrustAnchor.State#9: fetchedKeys[lastret("middleware/resolver.dnskeyIdentity")]
 //@   assert at store resolver.TrustAnchor.State#7: !fetchedKeys[lastret("middleware/resolver.dnskeyIdentity")]
 //@   assert at mapdelete#2: !fetchedKeys[lastret("middleware/resolver.dnskeyIdentity")]
+//@   # C09, KNOWN FINDINGS (recorded, not repaired - see /verif/known_findings.json, DESIGN 8.11):
+//@   # (a) the fetched keys are held one per 16-bit tag; a revoked anchor published together with a different key of the
+//@   #     same tag can be overwritten in that table, and its self-signed revocation is then never examined. The
+//@   #     obligation: a fetched key is filed only under a tag nothing is filed under yet
+//@   assert at mapupdate#6: !has(kskFetched, keyTag)
+//@   # (b) a revocation that was accepted but could be persisted nowhere clears the live set and is otherwise forgotten:
+//@   #     the next refresh starts from the stale state file and trusts the key again. The obligation: that branch also
+//@   #     records the revocation in the resolver's memory
+//@   assert at store resolver.Resolver.rootKeys#3: calls("(*middleware/resolver.Resolver).rememberUnpersistedRevocation") >= 1
 //@
 //@ # the revocation store reads as empty ONLY when the file does not exist; bytes that do not decode are corruption
 //@ # (an error the caller fails closed on), never an empty store
